@@ -208,3 +208,44 @@ func popcount(x int) int {
 	}
 	return n
 }
+
+// c04SharedDependencyOrders: `grog build //r:app` where app's dependency list names a target that was already reached
+// through an earlier entry before one that is reachable in no other way, in every order of the list: the build
+// returns (every dependency got selected, so nothing waits for a node that never runs) and executes all four targets.
+func c04SharedDependencyOrders(c *Ctx) {
+	grog, err := vc.BuildGrog("grog", nil)
+	if err != nil {
+		c.R.BrokenCheck("%v", err)
+		return
+	}
+	base, cleanup := scratchBase(c, "c04sel")
+	defer cleanup()
+	orders := [][]string{{":lib", ":base", ":gen"}, {":base", ":lib", ":gen"}, {":gen", ":lib", ":base"}, {":lib", ":gen", ":base"}, {":base", ":gen", ":lib"}, {":gen", ":base", ":lib"}}
+	for _, deps := range orders {
+		src := &hist.Source{Files: map[string]hist.File{}}
+		mk := func(name string, d []string) hist.Target {
+			return hist.Target{Pkg: "r", Name: name, Deps: d, Outputs: []string{name + ".out"}, Command: traceStart + "\nprintf " + name + " > " + name + ".out"}
+		}
+		src.Targets = append(src.Targets, mk("base", nil), mk("lib", []string{":base"}), mk("gen", nil), mk("app", deps))
+		box, err := hist.NewBox(base)
+		if err != nil {
+			c.R.BrokenCheck("%v", err)
+			return
+		}
+		src.Materialize(box.WS(), nil)
+		rr := box.Run(grog, hist.RunOpts{Args: []string{"build", "//r:app"}, Ceiling: 45e9})
+		replay := map[string]any{"dependencies_of_app": deps, "lib_depends_on": ":base", "exit": rr.Exit, "executed": rr.Started(), "grog_output_tail": tail(rr.Output, 500)}
+		switch {
+		case rr.TimedOut:
+			c.R.Violate(vc.Violation{Sig: "C04:build-hangs:dependency-reached-twice-before-one-reached-once", Detail: fmt.Sprintf("`grog build //r:app` with app.dependencies=%v (lib depends on base) did not return within 45 s: %s", deps, tail(rr.Output, 300)), Replay: replay})
+		case rr.Exit != 0:
+			c.R.Violate(vc.Violation{Sig: "C04:build-fails:dependency-reached-twice-before-one-reached-once", Detail: fmt.Sprintf("app.dependencies=%v: grog exited %d: %s", deps, rr.Exit, tail(rr.Output, 300)), Replay: replay})
+		case len(rr.Started()) != 4:
+			c.R.Violate(vc.Violation{Sig: "C04:selected-target-unresolved:dependency-not-built", Detail: fmt.Sprintf("app.dependencies=%v: executed %v instead of all four targets", deps, rr.Started()), Replay: replay})
+		}
+		c.R.AddCounts(1, 1, 1, 1)
+		c.R.Outcome(fmt.Sprintf("shared-dep|%v", rr.Started()))
+		c.R.Nontrivial(fmt.Sprintf("shared-dep|%v", deps))
+		box.Remove()
+	}
+}
